@@ -186,8 +186,10 @@ Definition of_outcome {A} (o : outcome A) : res A :=
 (* what make_new_node builds before the anchor is attached *)
 Record newnode := mknn {
   nn_val : pyval;
-  nn_wrapped : bool     (* a ruamel wrapper class (has .anchor, accepts anchor=); false: a bare Python object *)
+  nn_wrapped : bool;    (* a ruamel wrapper class (has .anchor, accepts anchor=); false: a bare Python object *)
+  nn_sbool : bool       (* the wrapper class is ScalarBoolean (an int subclass): Doc.is_sbool convention *)
 }.
+Definition nn_tag (nn : newnode) : option string := if nn_sbool nn then Some sbool_tag else None.
 
 Fixpoint mem_str (s : string) (l : list string) : bool :=
   match l with [] => false | x :: r => String.eqb s x || mem_str s r end.
@@ -202,23 +204,23 @@ Section MakeNode.
 Variable lit : string -> outcome litres.
 Variable fl : string -> outcome flres.
 
-Definition conv_str (value : pyval) : res newnode := ROk (mknn (PStr (py_str value)) true).
+Definition conv_str (value : pyval) : res newnode := ROk (mknn (PStr (py_str value)) true false).
 
 Definition conv_bool (value : pyval) : res newnode :=
   match value with
-  | PBool b => ROk (mknn (PInt (Z_of_bool b)) true)
+  | PBool b => ROk (mknn (PInt (Z_of_bool b)) true true)       (* ScalarBoolean(value) *)
   | _ =>
       let s := lower_str (py_str value) in
       if mem_str s bool_allowed
-      then ROk (mknn (PInt (if mem_str s bool_truthy then 1%Z else 0%Z)) true)
+      then ROk (mknn (PInt (if mem_str s bool_truthy then 1%Z else 0%Z)) true true)
       else RErr (PyCrash ValueError)
   end.
 
 Definition conv_float (value : pyval) : res newnode :=
   let via (t : string) :=
-    rbind (of_outcome (fl t)) (fun r => match r with FVal v => ROk (mknn v true) | FFail => RErr (PyCrash ValueError) end) in
+    rbind (of_outcome (fl t)) (fun r => match r with FVal v => ROk (mknn v true false) | FFail => RErr (PyCrash ValueError) end) in
   match value with
-  | PFloat _ _ => ROk (mknn value true)
+  | PFloat _ _ => ROk (mknn value true false)
   | PStr s => via s
   | PInt z => via (str_of_Z z)
   | PBool b => via (if b then "1" else "0")
@@ -227,10 +229,10 @@ Definition conv_float (value : pyval) : res newnode :=
 
 Definition conv_int (value : pyval) : res newnode :=
   match value with
-  | PStr s => match py_int s with Some z => ROk (mknn (PInt z) true) | None => RErr (PyCrash ValueError) end
-  | PInt z => ROk (mknn (PInt z) true)
-  | PBool b => ROk (mknn (PInt (Z_of_bool b)) true)
-  | PFloat q _ => ROk (mknn (PInt (Z.quot (Qnum q) (Zpos (Qden q)))) true)
+  | PStr s => match py_int s with Some z => ROk (mknn (PInt z) true false) | None => RErr (PyCrash ValueError) end
+  | PInt z => ROk (mknn (PInt z) true false)
+  | PBool b => ROk (mknn (PInt (Z_of_bool b)) true false)
+  | PFloat q _ => ROk (mknn (PInt (Z.quot (Qnum q) (Zpos (Qden q)))) true false)
   | PNone | POther _ => RErr (PyCrash ValueError)      (* int(None): TypeError, translated like ValueError *)
   end.
 
@@ -246,11 +248,11 @@ Definition conv_default (value : pyval) : res newnode :=
       end
   | PFloat _ _ => conv_float value
   | PBool _ => conv_bool value
-  | PNone => ROk (mknn value false)                 (* NoneType / str: the bare value itself *)
+  | PNone => ROk (mknn value false false)                 (* NoneType / str: the bare value itself *)
   | POther t =>
       if first_char_is "["%char t || first_char_is "{"%char t
       then conv_str value                          (* list / dict literal: not a leaf, or CommentedMap(str) fails *)
-      else ROk (mknn value false)                   (* tuple, bytes, ...: the bare value itself *)
+      else ROk (mknn value false false)                   (* tuple, bytes, ...: the bare value itself *)
   end).
 
 Definition conv (fmt : vformat) (value : pyval) : res newnode :=
@@ -275,13 +277,13 @@ Definition make_new_node (src : option info) (value : pyval) (fmt : vformat) (fr
   rbind (conv fmt value) (fun nn =>
   match (match src with Some i => nonempty_anchor i | None => None end) with
   | Some a =>
-      if nn_wrapped nn then ROk (NLeaf (mkinfo fresh (Some a) true None) (nn_val nn))
+      if nn_wrapped nn then ROk (NLeaf (mkinfo fresh (Some a) true (nn_tag nn)) (nn_val nn))
       else match nn_val nn with
            | PNone => ROk (NLeaf (mkinfo vo None false None) PNone)   (* new_type is NoneType: stays None (fix 2nd nodes.py commit) *)
            | _ => RErr (PyCrash TypeError)        (* str(value, anchor=...) *)
            end
   | None =>
-      if nn_wrapped nn then ROk (NLeaf (mkinfo fresh None true None) (nn_val nn))
+      if nn_wrapped nn then ROk (NLeaf (mkinfo fresh None true (nn_tag nn)) (nn_val nn))
       else ROk (NLeaf (mkinfo vo None false None) (nn_val nn))
   end).
 
